@@ -381,6 +381,33 @@ Theorem C15_first_failure : forall ext,
   /\ (forall cmds, (forall x, In x cmds -> ext x = 0%Z) -> upto_fail ext cmds = cmds /\ fail_status ext cmds = 0%Z).
 Proof. intro ext. split; [exact (upto_fail_first ext) | exact (upto_fail_none ext)]. Qed.
 
+(** the two together, spelled out: if the inlined command sequence is [pre ++ c :: post] with every
+    command of [pre] succeeding and [c] failing -- wherever [c] sits: top level or any call depth --
+    the script has run exactly [pre ++ [c]] (nothing of [post]) and its status is that of [c]; if no
+    command fails, all of them have run, in order, and the status is 0. *)
+Theorem C15_sete_calls_stops : forall ext file_text n fuel path text defs text_new rt sete lines w,
+  file_text path = Some text -> function_table text = (defs, text_new) ->
+  tab_ok (set_funcs defs (s_funcs w)) rt ->
+  flat_parsed text_new (sete :: lines) ->
+  cmd_words sete = [[115; 101; 116]; [45; 101]]%N ->
+  forallb ok_line (sete :: lines) = true ->
+  (forall pre c post, unfold rt (S fuel) lines = Some (pre ++ c :: post)%list ->
+     (forall x, In x pre -> ext x = 0%Z) -> ext c <> 0%Z ->
+     run_script ext file_text n (S (S fuel)) w path =
+       (mk_shs (s_eoe w) (set_funcs defs (s_funcs w)) (s_log w ++ pre ++ [c]), ext c)) /\
+  (forall cmds, unfold rt (S fuel) lines = Some cmds -> (forall x, In x cmds -> ext x = 0%Z) ->
+     run_script ext file_text n (S (S fuel)) w path =
+       (mk_shs (s_eoe w) (set_funcs defs (s_funcs w)) (s_log w ++ cmds), 0%Z)).
+Proof.
+  intros ext file_text n fuel path text defs text_new rt sete lines w H1 H2 H3 H4 H5 H6. split.
+  - intros pre c post Hu Hp Hc.
+    rewrite (sete_calls_script ext file_text n fuel path text defs text_new rt sete lines _ w H1 H2 H3 H4 H5 H6 Hu).
+    destruct (upto_fail_first ext pre c post Hp Hc) as [E1 E2]. rewrite E1, E2. reflexivity.
+  - intros cmds Hu Hz.
+    rewrite (sete_calls_script ext file_text n fuel path text defs text_new rt sete lines _ w H1 H2 H3 H4 H5 H6 Hu).
+    destruct (upto_fail_none ext cmds Hz) as [E1 E2]. rewrite E1, E2. reflexivity.
+Qed.
+
 (** non-vacuity: a 2-deep call chain, the failing command inside the INNER function; every hypothesis
     of C15_sete_calls_script is met (parses computed with the generated grammar) and its conclusion,
     obtained from the theorem (not by running the model), is: log one, out1, in1, fail7; status 7. *)
@@ -520,5 +547,6 @@ Print Assumptions C15_sete_rest_of_body.
 Print Assumptions C15_sete_calls_trace.
 Print Assumptions C15_sete_calls_script.
 Print Assumptions C15_first_failure.
+Print Assumptions C15_sete_calls_stops.
 Print Assumptions C15_sete_calls_nonvacuous.
 
